@@ -78,13 +78,16 @@ type c13Case struct {
 	OfferSetup string `json:"offer_setup"` // actpass active passive absent
 	NetSeed    uint64 `json:"net_seed"`
 	DelayUs    int    `json:"delay_us"`
+	// RejectFirst: the offer starts with a video section the answerer has no codec for, so the
+	// answer's first m-section is a rejected one (no a=setup in it)
+	RejectFirst bool `json:"reject_first,omitempty"`
 }
 
 func c13Gen(seed uint64, idx, total int, tier string) any {
 	r := vfNewRand(seed, "c13")
 	k := idx % 48
 	return &c13Case{LiteA: k&1 != 0, LiteB: k&2 != 0, AnswerRole: (k >> 2) % 3, OfferSetup: []string{"actpass", "active", "passive", "absent"}[(k/12)%4],
-		NetSeed: r.U64(), DelayUs: vfPick(r, []int{0, 1000, 20000})}
+		NetSeed: r.U64(), DelayUs: vfPick(r, []int{0, 1000, 20000}), RejectFirst: (idx/48)%2 == 1}
 }
 
 func c13Run(t *testing.T, cj []byte, res *vfResult) {
@@ -94,7 +97,11 @@ func c13Run(t *testing.T, cj []byte, res *vfResult) {
 		return
 	}
 	cfg := fmt.Sprintf("liteA=%v liteB=%v answerRole=%d offerSetup=%s", c.LiteA, c.LiteB, c.AnswerRole, c.OfferSetup)
-	res.Nontrivial = cfg
+	res.Nontrivial = cfg // the 48-entry matrix of the property; the rejected-first-section variant repeats it
+	if c.RejectFirst {
+		cfg += " rejectedFirstSection"
+		res.stat("runs_with_rejected_first_section", 1)
+	}
 	var lines []string
 	vfBubble(t, func(t *testing.T) {
 		t0 := time.Now()
@@ -121,6 +128,9 @@ func c13Run(t *testing.T, cj []byte, res *vfResult) {
 			case 2:
 				_ = se.SetAnsweringDTLSRole(DTLSRoleServer)
 			}
+			if c.RejectFirst {
+				_ = me.RegisterCodec(RTPCodecParameters{RTPCodecCapability: RTPCodecCapability{MimeType: MimeTypeOpus, ClockRate: 48000, Channels: 2}, PayloadType: 111}, RTPCodecTypeAudio)
+			}
 		})
 		if err != nil {
 			res.Verdict, res.Detail = "error", err.Error()
@@ -132,6 +142,12 @@ func c13Run(t *testing.T, cj []byte, res *vfResult) {
 			nw.Stop()
 			res.SimNs = int64(time.Since(t0))
 		}()
+		if c.RejectFirst {
+			if _, err = a.pc.AddTransceiverFromKind(RTPCodecTypeVideo, RTPTransceiverInit{Direction: RTPTransceiverDirectionRecvonly}); err != nil {
+				res.Verdict, res.Detail = "error", err.Error()
+				return
+			}
+		}
 		if _, err = a.pc.CreateDataChannel("d", nil); err != nil {
 			res.Verdict, res.Detail = "error", err.Error()
 			return
@@ -173,6 +189,13 @@ func c13Run(t *testing.T, cj []byte, res *vfResult) {
 		}
 		ansSetup := vfSetupOf(answer.SDP)
 		lines = append(lines, fmt.Sprintf("offer setup seen by B %v, answer setup %v", vfSetupOf(sent.SDP), ansSetup))
+		var accepted []string
+		for i, sec := range vfParseSDP(answer.SDP).Sections {
+			if sec.Port != 0 && i < len(ansSetup) {
+				accepted = append(accepted, ansSetup[i])
+			}
+		}
+		ansSetup = accepted
 		for _, sv := range ansSetup {
 			if sv != "active" && sv != "passive" {
 				res.violate("answer-setup-not-active-or-passive:"+sv, fmt.Sprintf("%s: answer a=setup is %q", cfg, sv))
@@ -189,13 +212,23 @@ func c13Run(t *testing.T, cj []byte, res *vfResult) {
 			lines = append(lines, "A rejected the answer: "+err.Error())
 			return
 		}
+		if c.RejectFirst {
+			// pion puts no a=candidate lines into a description whose first m-section is a rejected
+			// one (outside what C13 states); the answerer's candidates are trickled instead so that
+			// a lite answerer, which sends no checks of its own, stays reachable
+			if cands, cerr := b.pc.iceGatherer.GetLocalCandidates(); cerr == nil {
+				for _, cand := range cands {
+					_ = a.pc.AddICECandidate(cand.ToJSON())
+				}
+			}
+		}
 		bothLite := c.LiteA && c.LiteB
 		connected := vfWaitFor(45*time.Second, func() bool {
 			return a.pc.dtlsTransport.State() == DTLSTransportStateConnected && b.pc.dtlsTransport.State() == DTLSTransportStateConnected
 		})
 		vfDrain(60*time.Second, a, b)
 		ra, rb := a.pc.iceTransport.Role(), b.pc.iceTransport.Role()
-		lines = append(lines, fmt.Sprintf("ICE roles A=%s B=%s; DTLS states A=%s B=%s; first ClientHello from %s", ra, rb, a.pc.dtlsTransport.State(), b.pc.dtlsTransport.State(), hw.first))
+		lines = append(lines, fmt.Sprintf("ICE roles A=%s B=%s; ICE states A=%s B=%s; DTLS states A=%s B=%s; first ClientHello from %s", ra, rb, a.pc.ICEConnectionState(), b.pc.ICEConnectionState(), a.pc.dtlsTransport.State(), b.pc.dtlsTransport.State(), hw.first))
 		// ICE: exactly one controlling, RFC 8445 6.1.1
 		wantA, wantB := ICERoleControlling, ICERoleControlled // both full or both lite: the offerer controls
 		if c.LiteA && !c.LiteB {
@@ -227,6 +260,7 @@ func c13Run(t *testing.T, cj []byte, res *vfResult) {
 			res.violate("dtls-did-not-connect", fmt.Sprintf("%s: answer a=setup:%s, DTLS states A=%s B=%s after 45 s fake on a fault-free network (first ClientHello from %q)", cfg, ansSetup[0], a.pc.dtlsTransport.State(), b.pc.dtlsTransport.State(), first))
 			return
 		}
+		res.stat("runs_dtls_connected_both_ends", 1)
 		if !strings.HasPrefix(first, wantClient+":") {
 			res.violate("dtls-client-differs-from-exchanged-setup", fmt.Sprintf("%s: answer a=setup:%s makes %s the DTLS client, the first ClientHello came from %s", cfg, ansSetup[0], wantClient, first))
 		}
@@ -242,23 +276,29 @@ func c13Run(t *testing.T, cj []byte, res *vfResult) {
 // ---------------------------------------------------------------- C14
 
 type c14Case struct {
-	Tamper    string `json:"tamper"`     // none flip-digit hash-sha1 hash-sha384 delete move-level lower-case
-	Target    string `json:"target"`     // offer (B is the victim) | answer (A is the victim)
-	CertA     string `json:"cert_a"`     // default | ecdsa | rsa
-	CertB     string `json:"cert_b"`
-	MediaFP   bool   `json:"media_fp"`   // fingerprints at media level
-	NoVerify  bool   `json:"no_verify"`  // victim disabled fingerprint verification
-	Digit     int    `json:"digit"`      // which hex digit to alter
-	NetSeed   uint64 `json:"net_seed"`
+	Tamper   string `json:"tamper"` // none flip-digit hash-sha1 hash-sha384 delete move-level lower-case
+	Target   string `json:"target"` // offer (B is the victim) | answer (A is the victim)
+	CertA    string `json:"cert_a"` // default | ecdsa | rsa
+	CertB    string `json:"cert_b"`
+	MediaFP  bool   `json:"media_fp"`  // fingerprints at media level
+	NoVerify bool   `json:"no_verify"` // victim disabled fingerprint verification
+	Reissue  bool   `json:"reissue"`   // before offering, A tries SetConfiguration with a new certificate for the same key
+	Digit    int    `json:"digit"`     // which hex digit to alter
+	NetSeed  uint64 `json:"net_seed"`
 }
 
 func c14Gen(seed uint64, idx, total int, tier string) any {
 	r := vfNewRand(seed, "c14")
-	c := &c14Case{Tamper: vfPick(r, []string{"none", "flip-digit", "flip-digit", "flip-digit", "hash-sha1", "hash-sha384", "delete", "move-level", "lower-case"}),
+	c := &c14Case{Tamper: vfPick(r, []string{"none", "flip-digit", "flip-digit", "flip-digit", "hash-sha1", "hash-sha384", "hash-unknown", "hash-unknown", "delete", "move-level", "lower-case"}),
 		Target: vfPick(r, []string{"offer", "answer"}), CertA: vfPick(r, []string{"default", "default", "ecdsa", "rsa"}), CertB: vfPick(r, []string{"default", "default", "ecdsa", "rsa"}),
-		MediaFP: r.Bool(0.4), NoVerify: r.Bool(0.1), Digit: r.Intn(64), NetSeed: r.U64()}
+		MediaFP: r.Bool(0.4), NoVerify: r.Bool(0.1), Digit: r.Intn(64), NetSeed: r.U64(), Reissue: r.Bool(0.2)}
+	if c.Reissue {
+		c.CertA = "ecdsa"
+	}
 	return c
 }
+
+var c14LastKey *ecdsa.PrivateKey // the key of the most recent user-supplied ECDSA certificate
 
 func c14Cert(kind string) ([]Certificate, error) {
 	switch kind {
@@ -267,6 +307,7 @@ func c14Cert(kind string) ([]Certificate, error) {
 		if err != nil {
 			return nil, err
 		}
+		c14LastKey = sk
 		ct, err := GenerateCertificate(sk)
 		if err != nil {
 			return nil, err
@@ -352,6 +393,11 @@ func c14TamperSDP(sdp string, c *c14Case) (string, bool) {
 		case "hash-sha384":
 			alg = "sha-384"
 			mismatch = true
+		case "hash-unknown":
+			// a hash name the verifier cannot compute, with a value that is not the certificate's digest
+			alg = []string{"sha3-256", "sha256", "md5", "x-unknown"}[c.Digit%4]
+			val = strings.Repeat("AB:", 31) + "AB"
+			mismatch = true
 		case "lower-case":
 			val = strings.ToLower(val)
 		}
@@ -421,6 +467,16 @@ func c14Run(t *testing.T, cj []byte, res *vfResult) {
 		}
 		hook(a)
 		hook(b)
+		if c.Reissue && c14LastKey != nil {
+			// a renewed certificate for the same key is a different certificate: whether or not
+			// SetConfiguration accepts it, what is advertised must be what DTLS presents
+			time.Sleep(time.Second)
+			if ct2, err := GenerateCertificate(c14LastKey); err == nil {
+				err = a.pc.SetConfiguration(Configuration{Certificates: []Certificate{*ct2}})
+				lines = append(lines, fmt.Sprintf("SetConfiguration(re-issued certificate) -> %v", err))
+				res.stat("runs_with_reissued_certificate", 1)
+			}
+		}
 		dc, err := a.pc.CreateDataChannel("d", nil)
 		if err != nil {
 			res.Verdict, res.Detail = "error", err.Error()
@@ -543,10 +599,10 @@ func init() {
 	})
 	vfRegister(&vfProp{
 		ID: "C14", Level: "exploration", ReplayClass: "decision-exact",
-		Rule: "case = a pair with generated or user-supplied ECDSA / RSA-2048 certificates, fingerprints at session or media level; the signaling channel tampers with the fingerprint of the offer (victim B) or the answer (victim A): alter one hex digit, relabel the hash sha-1 / sha-384, delete, move between session and media level (value kept), lower-case (value kept); 10% of victims disable verification; non-trivial/distinct = distinct (tamper, target, certificates, level, verification) tuples",
-		Real: []string{"both PeerConnections with real ICE, DTLS (certificate verification), SCTP, data channels", "vnet"},
-		Stub: []string{"signaling channel as man in the middle on a=fingerprint"},
+		Rule:        "case = a pair with generated or user-supplied ECDSA / RSA-2048 certificates, fingerprints at session or media level; the signaling channel tampers with the fingerprint of the offer (victim B) or the answer (victim A): alter one hex digit, relabel the hash sha-1 / sha-384, delete, move between session and media level (value kept), lower-case (value kept); 10% of victims disable verification; non-trivial/distinct = distinct (tamper, target, certificates, level, verification) tuples",
+		Real:        []string{"both PeerConnections with real ICE, DTLS (certificate verification), SCTP, data channels", "vnet"},
+		Stub:        []string{"signaling channel as man in the middle on a=fingerprint"},
 		Assumptions: []string{"'never reaches connected' is sampled every 500 ms of fake time for 30 s", "a description rejected by SetRemoteDescription (e.g. fingerprint deleted) ends the run"},
-		Gen: c14Gen, Run: c14Run,
+		Gen:         c14Gen, Run: c14Run,
 	})
 }
